@@ -30,3 +30,20 @@ Proof.
   - rewrite in_app_iff. intros [X|X]; [contradiction|]. eapply H; [left; reflexivity|exact X].
   - apply IH; [exact Hd|exact H2|]. intros x Hx1 Hx2. eapply H; [right; exact Hx1|exact Hx2].
 Qed.
+
+Lemma NoDup_app_remove_l {A} (l l' : list A) : NoDup (l ++ l') -> NoDup l'.
+Proof. induction l as [|a l IH]; simpl; intros H; [exact H|]. inversion H; subst. apply IH. assumption. Qed.
+
+Lemma NoDup_app_remove_r {A} (l l' : list A) : NoDup (l ++ l') -> NoDup l.
+Proof.
+  induction l as [|a l IH]; simpl; intros H; [constructor|]. inversion H as [|? ? Hn Hd]; subst.
+  constructor; [intros X; apply Hn; apply in_or_app; left; exact X|apply IH, Hd].
+Qed.
+
+Lemma NoDup_app_disjoint {A} (l l' : list A) x : NoDup (l ++ l') -> In x l -> In x l' -> False.
+Proof.
+  induction l as [|a l IH]; simpl; intros H H1 H2; [destruct H1|].
+  inversion H as [|? ? Hn Hd]; subst. destruct H1 as [->|H1].
+  - apply Hn. apply in_or_app. right. exact H2.
+  - eapply IH; eassumption.
+Qed.
